@@ -135,9 +135,9 @@ Proof.
 Qed.
 
 (* the signal bit that the chain of connections starting at bit j of port q ends on *)
-Inductive rtgt : key -> Z -> bit -> Prop :=
+Inductive rtgt : key -> Z -> name * Z -> Prop :=
 | rt_sig q j cx bits id' j' s : pconn m q = Some cx -> xbits cx = Ok bits -> pick bits j = Ok (id', j') ->
-    assocN id' (m_leaves m) = Some (LSig s) -> rtgt q j (id', j')
+    assocN id' (m_leaves m) = Some (LSig s) -> rtgt q j (s, j')
 | rt_ref q j cx bits id2 j2 i2 p2 b : pconn m q = Some cx -> xbits cx = Ok bits -> pick bits j = Ok (id2, j2) ->
     assocN id2 (m_leaves m) = Some (LRef i2 p2) -> rtgt (i2, p2) j2 b -> rtgt q j b.
 
@@ -145,7 +145,8 @@ Lemma rtgt_fun q j b : rtgt q j b -> forall b', rtgt q j b' -> b = b'.
 Proof.
   induction 1 as [q j cx bits id' j' s Hp Hb Hk Hl|q j cx bits id2 j2 i2 p2 b Hp Hb Hk Hl _ IH]; intros b' H'.
   - inversion H' as [q0 j0 cx0 bits0 id0 j0' s0 Hp0 Hb0 Hk0 Hl0|q0 j0 cx0 bits0 id0 j0' i0 p0 b0 Hp0 Hb0 Hk0 Hl0 Hr0]; subst.
-    + rewrite Hp in Hp0. inversion Hp0; subst cx0. rewrite Hb in Hb0. inversion Hb0; subst bits0. rewrite Hk in Hk0. inversion Hk0. reflexivity.
+    + rewrite Hp in Hp0. inversion Hp0; subst cx0. rewrite Hb in Hb0. inversion Hb0; subst bits0. rewrite Hk in Hk0. inversion Hk0; subst.
+      rewrite Hl in Hl0. inversion Hl0. reflexivity.
     + rewrite Hp in Hp0. inversion Hp0; subst cx0. rewrite Hb in Hb0. inversion Hb0; subst bits0. rewrite Hk in Hk0. inversion Hk0; subst.
       rewrite Hl in Hl0. discriminate.
   - inversion H' as [q0 j0 cx0 bits0 id0 j0' s0 Hp0 Hb0 Hk0 Hl0|q0 j0 cx0 bits0 id0 j0' i0 p0 b0 Hp0 Hb0 Hk0 Hl0 Hr0]; subst.
@@ -158,7 +159,7 @@ Qed.
 (* what bit k of a re-parented expression is *)
 Definition bit_rel (b b' : bit) : Prop :=
   (exists s, assocN (fst b) (m_leaves m) = Some (LSig s) /\ b' = b) \/
-  (exists i p, assocN (fst b) (m_leaves m) = Some (LRef i p) /\ rtgt (i, p) (snd b) b').
+  (exists i p s', assocN (fst b) (m_leaves m) = Some (LRef i p) /\ assocN (fst b') (m_leaves m) = Some (LSig s') /\ rtgt (i, p) (snd b) (s', snd b')).
 
 Theorem reparent_sem : forall fuel e e', reparent m fuel e = Ok e' -> Forall (leaf_ok1 d m) (sx_leaves e) ->
   forall bits, xbits e = Ok bits ->
@@ -226,12 +227,14 @@ Proof.
           rewrite <- (map_nth_iota bs (id, 0)) at 1. apply map_ext_in. intros j Hj. apply iota_in in Hj. destruct Hj as [kk [Hkk ->]].
           rewrite HG by (unfold zlen in *; lia). apply nth_indep. lia.
         + exact Hbl.
-        + intros j Hj. rewrite (HG j Hj). right. exists i, p. split; [exact Hlf|]. cbn [snd].
+        + intros j Hj. rewrite (HG j Hj). right. exists i, p. cbn [fst snd].
+          cut (exists s', assocN (fst (nth (Z.to_nat j) bs (id, j))) (m_leaves m) = Some (LSig s') /\ rtgt (i, p) j (s', snd (nth (Z.to_nat j) bs (id, j)))).
+          { intros [s' [A B]]. exists s'. auto. }
           destruct (pick_ok cbits j) as [[idc jc] [Hpk _]]; [lia|]. destruct (Hbk j (idc, jc) Hpk) as [b' [Hpb' Hrel]].
           rewrite (pick_nth bs j b' (id, j) Hpb').
-          destruct Hrel as [[s [Hs ->]]|[i2 [p2 [Hl2 Hr2]]]]; cbn [fst snd] in *.
-          * eapply rt_sig; eassumption.
-          * eapply rt_ref; eassumption. }
+          destruct Hrel as [[s [Hs ->]]|[i2 [p2 [s' [Hl2 [Hs' Hr2]]]]]]; cbn [fst snd] in *.
+          * exists s. split; [exact Hs|]. eapply rt_sig; eassumption.
+          * exists s'. split; [exact Hs'|]. eapply rt_ref; eassumption. }
     exists (map G bits). split; [|split; [apply zlen_map|split]].
     + apply (sx_subst_bits (rp_leaf m (S f)) G e e' bits Hr Hb). intros id w el Hin Hel. apply (Hleaf id w el Hin Hel).
     + apply (sx_subst_leaves (rp_leaf m (S f)) (leaf_ok m) e e' Hr). intros id w el Hin Hel. apply (Hleaf id w el Hin Hel).
